@@ -415,6 +415,10 @@ func (ex *Exec) mergeStates(a, b *State) *State {
 			n := *oa
 			n.v = ex.merge(g, oa.v, ob.v)
 			n.frozen = oa.frozen || ob.frozen
+			if len(ob.allow) > 0 {
+				// write permissions granted on either path stay granted
+				n.allow = append(append([][]PathEl(nil), oa.allow...), ob.allow...)
+			}
 			r.heap[id] = &n
 		} else {
 			r.heap[id] = oa
